@@ -31,6 +31,7 @@ import (
 	"log/slog"
 	"math/rand"
 	"os"
+	"reflect"
 	"regexp"
 	"runtime/debug"
 	"sort"
@@ -218,6 +219,10 @@ type run struct {
 	nTestExt  int
 
 	knownID  string
+	pipeQ    int
+	pipeW    int
+	pipeS    int
+	nmsgs    int
 	nfresh   int
 	seq      uint64
 	hugeLeft int
@@ -249,9 +254,17 @@ func (r *run) build() {
 		// the library renders every received RPC for its debug log: hostile input reaches that code too
 		opts = append(opts, pubsub.WithRPCLogger(discardLogger(slog.LevelDebug)))
 	}
-	if c["validator"] == "seqno" {
+	if c["validator"] == "seqno" || c["validator"] == "inline" {
+		// asynchronous by default; "inline" runs it inside the validation worker
 		opts = append(opts, pubsub.WithDefaultValidator(
-			pubsub.NewBasicSeqnoValidator(&memStore{m: map[peer.ID][]byte{}}, discardLogger(slog.LevelError))))
+			pubsub.NewBasicSeqnoValidator(&memStore{m: map[peer.ID][]byte{}}, discardLogger(slog.LevelError)),
+			pubsub.WithValidatorInline(c["validator"] == "inline")))
+	}
+	if c["valq"] == "small" {
+		opts = append(opts, pubsub.WithValidateQueueSize(caps["ValidateQueueSmall"]), pubsub.WithValidateWorkers(caps["ValidateWorkersSmall"]))
+	}
+	if c["hslow"] == "on" {
+		cfg.QueueSize = caps["OutboundQueueSmall"]
 	}
 	allow := pubsub.NewAllowlistSubscriptionFilter(topicT)
 	switch c["filter"] {
@@ -294,6 +307,46 @@ func (r *run) build() {
 	cfg.Opts = opts
 	wout := vh.NewOut(r.t, "VERIF_WORLD_OUT")
 	r.w = world.New(r.t, wout, r.idx, cfg, nil)
+	r.pipeQ, r.pipeW, r.pipeS = pipelineCaps(r.w.NUT)
+}
+
+// pipelineCaps reads the capacities of the hand-offs between the event loop and the validation workers
+// (cap(validateQ), number of workers, cap(sendMsg)) off the node itself: reflection may read the length and
+// capacity of unexported fields. -1 when the library no longer has a field of that name.
+func pipelineCaps(ps *pubsub.PubSub) (q, w, s int) {
+	q, w, s = -1, -1, -1
+	defer func() { recover() }()
+	v := reflect.ValueOf(ps).Elem()
+	if f := v.FieldByName("sendMsg"); f.IsValid() && f.Kind() == reflect.Chan {
+		s = f.Cap()
+	}
+	val := v.FieldByName("val")
+	if val.IsValid() && val.Kind() == reflect.Ptr && !val.IsNil() {
+		if f := val.Elem().FieldByName("validateQ"); f.IsValid() && f.Kind() == reflect.Chan {
+			q = f.Cap()
+		}
+		if f := val.Elem().FieldByName("validateWorkers"); f.IsValid() && f.CanInt() {
+			w = int(f.Int())
+		}
+	}
+	return
+}
+
+// countMsgs turns a publish-count class into a number of messages, measured against the node's own pipeline.
+func (r *run) countMsgs(class string) int {
+	switch class {
+	case "qm":
+		return max(r.pipeQ-1, 1)
+	case "q":
+		return r.pipeQ
+	case "qp":
+		return r.pipeQ + 1
+	case "absorb":
+		return r.pipeQ + r.pipeW + r.pipeS
+	case "over":
+		return r.pipeQ + r.pipeW + r.pipeS + caps["OverMargin"]
+	}
+	return count("nmsg", class)
 }
 
 func (r *run) protoOf(who string) string {
@@ -327,6 +380,11 @@ func (r *run) setup() bool {
 	sub, err := tp.Subscribe()
 	if err != nil {
 		r.t.Fatalf("c12: subscribe: %v", err)
+	}
+	// a second subscriber that never reads, with a tiny buffer: the hand-off from the event loop to a subscriber
+	// overflows in every scenario (the loop must drop, never wait)
+	if _, err := tp.Subscribe(pubsub.WithBufferSize(caps["SlowSubscriberBuffer"])); err != nil {
+		r.t.Fatalf("c12: subscribe (slow): %v", err)
 	}
 	go func() {
 		for {
@@ -393,6 +451,10 @@ func (r *run) setup() bool {
 		}
 	}
 	w.Do(M{"a": "hb"})
+	if r.cfg("hslow") == "on" {
+		// from now on the hostile peer's transport does not take the node's writes: the node's outbound queue to it fills
+		w.H.GateWrites(r.h.ID())
+	}
 	// a message the NUT has seen and cached: its id is the "known" message id
 	m0 := r.honestMsg("m0")
 	r.knownID = r.msgID(m0)
@@ -681,7 +743,8 @@ func (r *run) rpc(f map[string]string, k int) []byte {
 		}
 		rpc.Subscriptions = append(rpc.Subscriptions, so)
 	}
-	for i := 0; i < count("nmsg", f["nmsg"]); i++ {
+	r.nmsgs = r.countMsgs(f["nmsg"])
+	for i := 0; i < r.nmsgs; i++ {
 		rpc.Publish = append(rpc.Publish, r.message(f, k, i))
 	}
 	ctl := &pb.ControlMessage{}
@@ -868,8 +931,19 @@ func (r *run) step(k int, fr frame) {
 		hnet.Settle(10 * time.Millisecond)
 		w.Rec.Take()
 	}
+	r.nmsgs = 0
 	if fr.Kind == "Tick" {
 		w.Do(M{"a": "hb"})
+	} else if fr.Kind == "Dup" {
+		// further inbound streams, one after the other, the previous ones left open: the node keeps the last
+		for i := 0; i < 8; i++ {
+			if err := r.h.OpenOut(); err != nil {
+				r.t.Fatalf("c12: dup stream: %v", err)
+			}
+			hnet.Settle(2 * time.Millisecond)
+		}
+		r.hw = watchStream(r.h.OutStream())
+		hnet.Settle(20 * time.Millisecond)
 	} else {
 		w.Guard()
 		b, closeAfter := r.bytesOf(fr, k)
@@ -904,6 +978,8 @@ func (r *run) step(k int, fr frame) {
 			if p == "h" {
 				recv++
 			}
+		case "Drop":
+			kinds["Drop:"+p]++
 		case "Throttle":
 			if p == "g" {
 				throttled = true
@@ -972,7 +1048,7 @@ func (r *run) step(k int, fr frame) {
 			"recv": recv, "eval": eval, "probe": r.wasDelivered(name), "throttled": throttled},
 		"info": M{"bytes": nbytes, "werr": werr, "rerr": herr, "nutInbound": inb, "ev": ks, "sent": ss, "dials": dials,
 			"partialCalls": np, "testExtCalls": nt, "t": hnet.NowMs(),
-			"iasked": iasked, "peerhave": peerhave, "peerdontwant": peerdw, "ticks": ticks}})
+			"iasked": iasked, "peerhave": peerhave, "peerdontwant": peerdw, "ticks": ticks, "nmsgs": r.nmsgs}})
 	if !eval {
 		// the event loop no longer answers: nothing can be shut down cleanly from here
 		os.Exit(5)
@@ -994,7 +1070,8 @@ func runScenario(t *testing.T, out *lineOut, idx int, s scenario, onlyFrame int)
 		defer r.w.Close()
 		ok := r.setup()
 		out.emit(M{"e": "reset", "scn": idx, "id": s.ID, "origin": s.Origin, "cfg": s.Cfg, "ok": ok,
-			"hOut": r.h.InboundAlive() > 0, "gOut": r.g.InboundAlive() > 0})
+			"hOut": r.h.InboundAlive() > 0, "gOut": r.g.InboundAlive() > 0,
+			"pipe": M{"q": r.pipeQ, "w": r.pipeW, "s": r.pipeS}})
 		if !ok {
 			return
 		}
